@@ -370,6 +370,10 @@ def run(tier):
         m_ = re.search(r"\]\(B&\.\.\.(\w+),T&\.\.\.(\w+)\)", txt)
         a_, u_ = (m_.group(1), m_.group(2)) if m_ else ("args", "udargs")
         ok = ("returnfun(casting_policy<D&,B&>::cast(%s)...,%s...);" % (a_, u_)) in txt
+        if ok and m_ is None:
+            ok = False
+            txt = "the wrapper's parameters are `%s`, expected (B&... args, T&... udargs): the dispatched and the undispatched arguments must reach the handler by reference" % (
+                re.search(r"\]\(([^)]*)\)", txt).group(1) if re.search(r"\]\(([^)]*)\)", txt) else "?")
         (rep.holds if ok else rep.violates)("C17.args", FU + "::insert", "handler wrapper", where=d.where(f),
                                             detail="fun(casting_policy<D&, B&>::cast(args)..., udargs...)" if ok else
                                             "the wrapper must call fun(casting_policy<D&, B&>::cast(args)..., udargs...); found `%s`" % txt[:160])
